@@ -39,9 +39,11 @@ The property predicate uses plain Python `fractions` / NumPy oracles that do not
 """
 from fractions import Fraction
 
+from . import c18_g6 as g6_mod
 from . import c18_hist as hist_mod
 
 LEVEL = "proof"
+EXTRA_PROPS = ["QuantemModel.Props.C18Ext"]   # growth 6: the dataset model after its centre-of-mass stage (Model/OriginPrep.lean)
 MANIFEST_ENTRY = {
     "category": "proof",
     "text": "Lean 4 theorems over three separately written executable models of the centre-of-mass code (torch batched calculate_origin, numpy vectorised and looped _set_intensities_com): for every carrier (incl. binary64) the batched result is independent of the batch size and the three paths return the same values; over R each equals the intensity-weighted mean row/column index of the (masked) pattern and is invariant under multiplying every pattern by its own non-zero factor (com_scale_invariant); a constant fit of constant origins and a PCA plane fit (any null vector of the scatter form; unconditional on every scan raster of at least 2x2 positions, plane_exact_raster) or least-squares fit (any minimiser; instantiated for the modelled _plane/_parabola/_bezier_two families) of origins lying exactly on a plane/surface return that surface; shift_origin_to with integer origin is exactly the circular roll (bilinear weights (1,0,0,0), periodic index). Tied to the code on every run by bit-exact comparison on integer-valued patterns for every batch size, masks, non-square shapes; the two real classes (direct-ptychography origin model, ptychography dataset model incl. preprocess()) are additionally compared with each other on the same datasets (<= 1 float32 ulp). Both objects are also modelled as state machines whose calls return or raise (Model/OriginState.lean): a rejected primitive call leaves the object unchanged, a history equals the history of its accepted calls, num_dps follows the tensor, stored origins have one row per pattern, and calculate_origin / shift_origin_to / constant fit / the centre-of-mass stage of preprocess() give the weighted mean / the roll / the constant / the weighted mean of the patterns held NOW after ANY history; tied by generated call histories with rejected calls, tensor replacement, in-place edits and re-runs (twin without the rejected calls, fresh object, exact oracle, omStep / dsStep at Rat after every call). The curve_fit families _plane/_parabola/_bezier_two are re-translated from the source on every run and proved equal to the modelled surfaceF.",
@@ -93,7 +95,7 @@ def guarded(ctx, fn, case, *args, **kw):
     import traceback
     try:
         fn(*args, **kw)
-    except (HarnessError, hist_mod.HarnessError):
+    except (HarnessError, hist_mod.HarnessError, g6_mod.HarnessError):
         raise
     except Exception as e:  # noqa
         tb = traceback.extract_tb(e.__traceback__)
@@ -992,6 +994,12 @@ def run(ctx):
         rng = ctx.rng.fork(4)
         for _ in range(ctx.n(50, 300)):
             guarded(ctx, e2e_case, {"stream": "e2e"}, ctx, rng)
+        # growth 6 (kept LAST so that the streams above see the same generator states as before)
+        rng = ctx.rng.fork(13)
+        for _ in range(ctx.n(40, 400)):
+            pc = g6_mod.gen_prep(rng)
+            guarded(ctx, g6_mod.prep_case, {"stream": "prep", "pc": pc}, ctx, drv, pc)
+        g6_mod.fixed_blocks(ctx, drv, guarded)
     finally:
         drv.close()
 
@@ -1020,6 +1028,8 @@ def replay(ctx, rep):
             hist_mod.omhist_case(ctx, drv, case["hist"])
         elif st == "dshist":
             hist_mod.dshist_case(ctx, drv, case["hist"])
+        elif st == "prep":
+            g6_mod.prep_case(ctx, drv, case["pc"])
         elif st == "forward_partial":
             hist_mod.forward_partial_case(ctx, drv)
         elif st == "signatures":
